@@ -250,7 +250,7 @@ def _conv_call(e: ast.AST) -> T.Optional[T.Tuple[str, ast.AST]]:
     return None
 
 
-def parts(e: ast.AST, scans: T.Mapping[str, int] = {}, conv: T.Tuple[str, ...] = ()) -> T.Tuple[Part, ...]:
+def parts(e: ast.AST, scans: T.Mapping[str, T.Any] = {}, conv: T.Tuple[str, ...] = ()) -> T.Tuple[Part, ...]:
     """Shape of a text-valued expression.  `scans` maps replacement-function names to the index of their text argument."""
     if isinstance(e, ast.Constant):
         if isinstance(e.value, str) and not conv:
@@ -309,9 +309,13 @@ def parts(e: ast.AST, scans: T.Mapping[str, int] = {}, conv: T.Tuple[str, ...] =
         return (Strip(parts(e.func.value, scans)),)
     if not conv and isinstance(e, ast.Subscript) and isinstance(e.slice, ast.Constant) and e.slice.value == 0 and isinstance(e.value, ast.Call) \
             and isinstance(e.value.func, ast.Name) and e.value.func.id in scans:
-        idx = scans[e.value.func.id]
+        spec = scans[e.value.func.id]
+        idx, pname = spec if isinstance(spec, tuple) else (spec, None)
         if idx < len(e.value.args):
             return (Scan(e.value.func.id, parts(e.value.args[idx], scans)),)
+        for k in e.value.keywords:
+            if pname is not None and k.arg == pname:
+                return (Scan(e.value.func.id, parts(k.value, scans)),)
     return (Op(norm(e), conv, e),)
 
 
